@@ -93,13 +93,21 @@ def run_detect(case):
     with scratch_dir("c09d") as d:
         akai = A.build_akai(A.model_from_spec({"parts": [{"vols": [{"name": "VOL", "dir": [3], "files": [
             {"name": "SMP", "n": 40, "chain": [4], "seq": 1}]}]}]}))[0]
+        n = len(case["modes"])
+        step = 3 if n <= 3 else 1
         with open(os.path.join(d, "disc.bin"), "wb") as f:
-            f.write(akai if case["data"] else Q.bin_bytes(Q.SECTOR * 10))
+            f.write(akai if case["data"] else Q.bin_bytes(Q.SECTOR * max(10, n * step + 2)))
         tracks = []
         for i, mode in enumerate(case["modes"]):
-            tracks.append({"number": i + 1, "mode": mode, "indices": [(1, i * 3)]})
+            t = {"number": i + 1, "mode": mode, "indices": [(1, i * step)]}
+            if case.get("titles"):
+                t["title"] = "Track number %02d of this disc" % (i + 1)
+                t["extra"] = ['PERFORMER "Somebody"']
+            tracks.append(t)
         p = os.path.join(d, "disc.cue")
         with open(p, "w") as f:
+            # long sheets: REM lines before the FILE line (legal anywhere, ignored)
+            f.write("".join("REM comment line %04d %s\n" % (k, "x" * 40) for k in range(case.get("preamble", 0))))
             f.write(Q.cue_text("disc.bin", tracks))
         def go():
             img = tree.open_image(p)
@@ -109,11 +117,14 @@ def run_detect(case):
     want = "CompactDiskAudioImage" if all(m.upper() == "AUDIO" for m in case["modes"]) else "AkaiImageParser"
     if st != "ok":
         return False, "detect-" + ("raised:" + exc_sig(obs) if st == "exc" else "hang"), {"observed": repr(obs)[:200]}
+    brief = case["modes"] if len(case["modes"]) <= 4 else [f"{len(case['modes'])} tracks, last: {case['modes'][-1]}"]
     if obs[0] != want:
-        return False, "detect-class", {"modes": case["modes"], "expected": want, "observed": obs[0]}
+        return False, "detect-class", {"modes": brief, "preamble": case.get("preamble", 0), "expected": want, "observed": obs[0]}
+    if not case["data"] and len(parse_table(obs[1]) or []) != len(case["modes"]):
+        return False, "detect-track-count", {"tracks_in_sheet": len(case["modes"]), "listed": len(parse_table(obs[1]) or [])}
     if case["data"] and (st_b != "ok" or obs[1] != base or "A:" not in obs[1]):
         # a sheet with a data track is the sampler image of its bin file: same root listing as the bin opened directly
-        return False, "detect-not-the-bin-image", {"modes": case["modes"], "bin_listing": repr(base)[:150], "cue_listing": obs[1][:150]}
+        return False, "detect-not-the-bin-image", {"modes": brief, "preamble": case.get("preamble", 0), "bin_listing": repr(base)[:150], "cue_listing": obs[1][:150]}
     return True, "detect:" + obs[0], None
 
 
@@ -127,7 +138,9 @@ class Check(CheckBase):
             "(thorough 0..511), truncated payloads, x the encodings {raw, MODE1/2352, "
             "MDX, cue->raw, cue->2352, cue in another directory naming its bin with a path} as real files: same image class, character-identical ls text at every node reachable "
             "through the printed names, identical exported trees (paths + bytes); cue dispatch: all combinations of "
-            "AUDIO/MODE1/2352/MODE2/2352 modes over <=3 tracks. non-trivial = image with >=1 exported file")
+            "AUDIO/MODE1/2352/MODE2/2352 modes over <=3 tracks; long sheets: n titled audio tracks (+ a data track last) for "
+            "every n<=98, k comment lines before FILE for every k<300 (thorough <1200) and 5000, 20000; an all-audio sheet "
+            "lists exactly its tracks. non-trivial = image with >=1 exported file")
     assumptions = ["MODE1/2352 and MDX writers follow the layouts in DESIGN appendix A"]
 
     def shards(self):
@@ -165,6 +178,13 @@ class Check(CheckBase):
                 if k == 3 and self.quick and t[0] != "AUDIO":
                     continue
                 det.append({"fmt": "detect", "modes": list(t), "data": not all(m.upper() == "AUDIO" for m in t)})
+        # long cue sheets, every length in a consecutive range: n titled audio tracks (then a data track / all audio) for
+        # every n up to the 99 a disc can hold; k comment lines (61 bytes each) before the FILE line for every k
+        for n in range(1, 99):
+            det.append({"fmt": "detect", "modes": ["AUDIO"] * n + ["MODE1/2352"], "data": True, "titles": True})
+            det.append({"fmt": "detect", "modes": ["AUDIO"] * (n + 1), "data": False, "titles": True})
+        for k in list(range(1, 300 if self.quick else 1200)) + [5000, 20000]:
+            det.append({"fmt": "detect", "modes": ["MODE1/2352"] if k % 2 else ["AUDIO", "AUDIO"], "data": bool(k % 2), "preamble": k})
         return self.chunk(cases, 8) + self.chunk(rcases, 2) + self.chunk(det, 40)
 
     def run_shard(self, shard, rep: Report):
